@@ -48,13 +48,17 @@ def harnesses(tier):
 from . import prodsim  # noqa: E402
 
 
-def produce_config(src, allow_acks0=False):
+def produce_config(src, allow_acks0=False, batch_api=False):
     idem = src.flag("idempotent")
     cfg = {"idempotent": idem}
     if not idem:
         cfg["acks"] = [1, -1, 0][src.choice("acks", 3 if allow_acks0 else 2)]
     cfg["linger_ms"] = [0, 5][src.choice("linger", 2)]
     cfg["max_batch_size"] = [16384, 90][src.choice("batch_size", 2)]  # 90: one record per batch
+    if idem and src.flag("broker_answers_replayed_batches_with_DUPLICATE_SEQUENCE_NUMBER"):
+        cfg["dup46"] = True
+    if batch_api and src.flag("task0_uses_create_batch_send_batch"):
+        cfg["send_batch_tasks"] = (0,)
     return cfg
 
 
@@ -116,7 +120,7 @@ def check_c01(src, res, cfg):
 
 
 def s1_composed(src, tasks_spec, max_requests, max_faults, start_seq=0):
-    cfg = produce_config(src)
+    cfg = produce_config(src, batch_api=True)
     if start_seq and cfg["idempotent"]:
         cfg["start_seq"] = start_seq
     res = prodsim.run_producer(src, cfg, tasks_spec, prodsim.RETRIABLE_MENU, max_requests, max_faults)
@@ -148,8 +152,101 @@ def _s1(tier):
     return hs
 
 
+# ------------------------------------------------------------------------------------------
+# S2: transactional producer, slow leader, leadership moving while a batch is in flight, a second partition
+# waiting for AddPartitionsToTxn.  The in-flight rule (one batch per partition) must hold whatever else the
+# sender has to mute or un-mute at that moment.
+
+
+def s2_txn_leader_move(src):
+    import asyncio
+    from env import simkafka, vloop
+    from . import txnsim
+
+    cluster = simkafka.Cluster(nodes=(0, 1), topics={"t": 2})
+    slow_node0 = [0.0, 0.6][src.choice("reply_delay_of_node0", 2)]
+    slow_add = [0.0, 0.6][src.choice("add_partitions_delay", 2)]
+    max_age = [300000, 150][src.choice("metadata_max_age_ms", 2)]
+    move = src.choice("leader_of_p0_moves", 3)  # 0 never, 1 while the first batch is in flight, 2 before anything is sent
+    gap1 = [0.0, 0.05, 0.3][src.choice("pause_before_second_sends", 3)]
+    order2 = src.choice("second_sends_order", 2)
+    res = {}
+
+    async def main(loop):
+        with simkafka.installed(cluster):
+            prod = await txnsim.open_producer(cluster, metadata_max_age_ms=max_age)
+            try:
+                await prod.begin_transaction()
+                if move == 2:
+                    cluster.leader[("t", 0)] = 1
+                futs = [await prod.send("t", b"a1", key=b"k", partition=0)]
+                cluster.produce_delay = {0: slow_node0}
+                cluster.add_partitions_delay = slow_add
+                # let the first batch reach its leader
+                for _ in range(200):
+                    if any(a["req"]["api"] == "Produce" for a in cluster.arrivals):
+                        break
+                    await asyncio.sleep(0.01)
+                if move == 1:
+                    cluster.leader[("t", 0)] = 1
+                if gap1:
+                    await asyncio.sleep(gap1)
+                second = [(0, b"a2"), (1, b"b1")]
+                if order2:
+                    second.reverse()
+                for p, v in second:
+                    futs.append(await prod.send("t", v, key=b"k", partition=p))
+                await asyncio.sleep(0.4)
+                futs.append(await prod.send("t", b"a3", key=b"k", partition=0))
+                await prod.commit_transaction()
+                res["committed"] = True
+                res["futs"] = futs
+            except Exception as e:  # noqa: BLE001
+                res["error"] = repr(e)
+            finally:
+                try:
+                    await asyncio.wait_for(prod.stop(), 20)
+                except Exception as e:  # noqa: BLE001
+                    res["stop_error"] = repr(e)
+
+    try:
+        vloop.run(main, max_vtime=120.0)
+    except vloop.Deadlock as e:
+        res["deadlock"] = str(e)
+    c = cluster
+    info = dict(reply_delay_node0=slow_node0, add_partitions_delay=slow_add, metadata_max_age_ms=max_age, move=move,
+                requests=[(a["node"], a["req"]["api"], round(a["time"], 3)) for a in c.arrivals][:30])
+    src.note(info)
+    src.check("deadlock" not in res, "transactional producer run did not finish in bounded virtual time: " + str(res.get("deadlock")), **info)
+    ok = all(n <= 1 for n in c.max_inflight_per_partition.values())
+    if src.twin:
+        ok = not ok
+    src.check(ok, "two produce requests for one partition in flight at once (transactional producer, leadership moved)",
+              inflight=dict((str(k), v) for k, v in c.max_inflight_per_partition.items()), **info)
+    src.check(not c.seq_errors, "a sequence gap / reused sequence was presented to a broker (OUT_OF_ORDER_SEQUENCE)",
+              detail=str(c.seq_errors[:2]), **info)
+    src.check("error" not in res, "send/commit failed although no fault was injected: " + str(res.get("error")), **info)
+    if res.get("committed"):
+        log0 = [r[2] for r in c.logs[("t", 0)].visible_records(1)]
+        src.check(log0 == [b"a1", b"a2", b"a3"], "partition 0 does not hold the records in send order after commit", log=[x.decode() for x in log0], **info)
+
+
+def _s2(tier):
+    from aiokafka.producer.sender import Sender
+    from aiokafka.producer.message_accumulator import MessageAccumulator
+    return [Harness(
+        name="S2_transactional_leader_move", fn=s2_txn_leader_move,
+        functions=[Sender._sender_routine, Sender._maybe_do_transactional_request, MessageAccumulator.drain_by_nodes],
+        shape="S",
+        symbolic_vars="choices: reply delay of the old leader, AddPartitionsToTxn delay, metadata max age, when the leadership of p0 moves, pause and order of the second sends",
+        bounds={"transactions": 1, "records": 4, "partitions": 2, "brokers": 2},
+        stubs=["AIOKafkaConnection -> SimConn (request-level cluster model, env/simkafka.py)", "virtual-time event loop"],
+        assumptions=["broker behaviour as modelled in env/simkafka.py"],
+        max_seconds=300, max_paths=100000, twin_max_paths=500)]
+
+
 _k_harnesses = harnesses
 
 
 def harnesses(tier):  # noqa: F811
-    return _k_harnesses(tier) + _s1(tier)
+    return _k_harnesses(tier) + _s1(tier) + _s2(tier)
